@@ -1096,6 +1096,7 @@ func (c *Client) CloseWithSMTPClient(client *smtp.Client) error {
 		return nil
 	}
 	if err := client.Quit(); err != nil {
+		_ = client.Close()
 		return fmt.Errorf("failed to close SMTP client: %w", err)
 	}
 
